@@ -298,3 +298,18 @@ Proof.
   assert ((rn =? rt)%nat = false) as -> by (apply Nat.eqb_neq; lia).
   rewrite H3. simpl. apply Nat.eqb_neq in H2. rewrite H2. reflexivity.
 Qed.
+
+(* a weight list whose sum is not 1 is refused (ValueError), whatever the cells *)
+Lemma disagg_refuses_weight_sum rt rn ws fields tf cells :
+  (rn < rt)%nat -> (rt mod rn = 0)%nat -> existsb (fun f => mem_str f fields) tf = true ->
+  ~ Qabs (qsum ws - 1) <= wtol ->
+  disaggregate_experience rt rn (Some ws) fields tf cells = DCells (Err ValueError).
+Proof.
+  intros H1 H2 H3 Hs. unfold disaggregate_experience.
+  assert ((rt <? rn)%nat = false) as -> by (apply Nat.ltb_ge; lia).
+  assert ((rn =? rt)%nat = false) as -> by (apply Nat.eqb_neq; lia).
+  rewrite H3, H2. cbn [negb Nat.eqb]. cbv zeta.
+  assert (valid_weights (rt / rn) ws = false) as ->; [|reflexivity].
+  unfold valid_weights. apply andb_false_iff. right. apply not_true_is_false. intro E.
+  apply Qle_bool_iff in E. contradiction.
+Qed.
